@@ -286,15 +286,14 @@ def splice(take, mode, mutant=None):
             else:
                 text = text.replace(ph, "")
         # closures
-        ncl = int(take.meta.get("closures", 0))
-        for n in range(ncl):
+        for n in [x for x in take.meta.get("closures", "").split(";") if x]:
             ph = f"__verif_closure_{n} !("
             i = text.find(ph)
             if i < 0:
                 continue
             j = find_matching(text, i + len(ph) - 1)
             inner = text[i + len(ph):j]
-            hdr = get(f"closure {n}")
+            hdr = get("closure " + n.rsplit("_", 1)[0] + " " + n.rsplit("_", 1)[1])
             if hdr:
                 # inner = |params| body  -> hdr { body }
                 k = inner.index("|", inner.index("|") + 1)
